@@ -257,7 +257,7 @@ fn judge(variant: usize, forest: &[B], w: &mut WorkerCtx)
 					if !expect_reject
 					{
 						ok = false;
-						w.result.violation(&format!("rejected-well-scoped-body:E{}", codes[0]), size, &desc, || format!("the model finds no scoping violation, the compiler reports {codes:?}\n{text}"));
+						w.result.violation(&format!("rejected-well-scoped-body:E{}", codes.first().copied().unwrap_or(0)), size, &desc, || format!("the model finds no scoping violation, the compiler reports {codes:?}\n{text}"));
 					}
 					else
 					{
